@@ -112,6 +112,28 @@ def make_events(case):
                 out.append({"typ": "mutate", "case": case, "which": which, "mut": mut, "hb": hb2, "h": h2, "owner": own, "other": 7,
                             "str_before": before[0], "str_after": after[0], "eval_before": before[1], "eval_after": after[1]})
     # ---- clone_from_root on every node, both call forms
+    if is_expr and case.get("only_cfr_at"):
+        import sys
+        sys.setrecursionlimit(10000)
+        nodes = rewrite.inorder(tree)
+        out = [e for e in out if e["typ"] == "clone"]           # keep the plain clone event, skip the mutation sweeps on the big tree
+        for k in case["only_cfr_at"]:
+            if k >= len(nodes):
+                continue
+            nd = nodes[k]
+            objs = project.ObjTable()
+            hb = snap(objs, [tree])
+            ev = {"typ": "cfr", "case": case, "k": k, "form": "self_deep", "hb": hb, "node": objs.of(nd), "ret": 0}
+            try:
+                r = nd.clone_from_root()
+                ev["outcome"] = "ok"
+                ev["ret"] = objs.of(r) if hasattr(r, "left") else 0
+            except BaseException as e:  # noqa
+                ev["outcome"] = type(e).__name__
+                r = None
+            ev["h"] = snap(objs, [r] if r is not None and hasattr(r, "left") else [])
+            out.append(ev)
+        return out
     if is_expr:
         nodes = rewrite.inorder(tree)
         for k, nd in enumerate(nodes):
@@ -227,7 +249,7 @@ def mutate(root, how):
             kids[len(kids) // 2].rotate()
 
 
-TEXTS = ["3.0x + 2.0", "7.0^30 * y - 2", "1.0", "2.50x^2.0", "4x + 2y^3", "-(2y + 3)^2", "sgn(x - 7)", "3!", "5! + x", "4(x + 2) + 7y", "x = 2y + 1", "2x * 3x * x", "0.5x^2 - -3", "(x + 1)(x - 1)",
+TEXTS = ["-(4! * x) + y", "7 - -(2!)", "-(3!)", "-(3^2 * x)", "3 / -((x + 1) * y)", "(x^y)^z", "3.0x + 2.0", "7.0^30 * y - 2", "1.0", "2.50x^2.0", "4x + 2y^3", "-(2y + 3)^2", "sgn(x - 7)", "3!", "5! + x", "4(x + 2) + 7y", "x = 2y + 1", "2x * 3x * x", "0.5x^2 - -3", "(x + 1)(x - 1)",
          "x + x + x", "2 * 2 * 2", "-x - -x", "-5!", "12345678901234567891x", "x^2^3", "2^(x^y)", "((x))", "7 / (x / y) / z"]
 
 
@@ -238,6 +260,9 @@ def domain(ctx):
     for t, r, o, k in [("4(x + 2) + 7y", "dist", "", 3), ("(x + 1) * y", "dist", "", 3), ("2x + 3x", "factor", "", 3), ("x * x^2", "varmul", "", 1),
                        ("6 / -z", "inverse", "", 1), ("4 - 3x", "restate", "", 1), ("2x + 1 = 3", "move", "", 4), ("(4 * 2) * x", "fold", "", 3)]:
         cases.append({"src": "step", "text": t, "rule": r, "opt": o, "k": k})
+    # a deep tree: clone_from_root near the top, around depth 64 and at the bottom
+    cases.append({"src": "text", "text": " + ".join("%dx" % (k % 9 + 1) for k in range(90)), "only_cfr_at": [0, 1, 2, 3, 50, 120, 176, 177, 178]})
+    cases.append({"src": "text", "text": "x * " * 70 + "y", "only_cfr_at": [0, 1, 2, 60, 130, 138, 139, 140]})
     n = 4 if ctx.quick else 6
     for s in shapes.shapes_upto(n):
         for cls in ("expr", "uniform", "btn", "btn_sameid"):
